@@ -205,16 +205,17 @@ static void RunSender(Scen & sc, int s, const std::vector<MessageRef> & msgs)
    for (size_t i = 0; i < msgs.size() && !caseBad; i++) {
       if (gw()->AddOutgoingMessage(msgs[i]).IsError()) { fprintf(stderr, "HARNESS-ABORT: AddOutgoingMessage\n"); abort(); }
       if (sc.flushEach || i + 1 == msgs.size()) {
+         // the way an event loop drives a gateway: DoOutput() only while HasBytesToOutput(); a Write() that returned 0 is retried by the next DoOutput()
          int idle = 0;
          while (gw()->HasBytesToOutput()) {
-            const size_t before = sc.pk[s].size(); const long h = io.holds;
+            const size_t before = sc.pk[s].size(); const long h = io.holds; const bool heldBefore = io.lastHeld;
             io_status_t r = gw()->DoOutput(sc.outMax);
             if (r.IsError()) { Fail(std::string("sender|DoOutput_error|") + sc.Kind(), vh::fmt("DoOutput returned %s with Messages pending", r.GetStatus()())); break; }
             if (sc.pk[s].size() == before && io.holds == h && gw()->HasBytesToOutput()) { if (++idle >= 3) { Fail(std::string("sender|stalled|") + sc.Kind(), vh::fmt("DoOutput wrote nothing 3 times in a row while HasBytesToOutput() (Message %zu of sender %d)", i, s)); break; } } else idle = 0;
+            if (heldBefore && sc.pk[s].size() > before && !gw()->HasBytesToOutput()) vh::stat("held_packets_flushed_via_HasBytesToOutput");   // the held packet was the last thing to send
          }
-         // a held packet is not announced by HasBytesToOutput() (only queued Messages are): an event loop would send it with
-         // the next Message; the harness flushes it so that the identity oracle judges assembly, not this liveness corner
-         if (io.lastHeld) { vh::stat("unspecified_held_packet_not_announced_by_HasBytesToOutput"); (void)gw()->DoOutput(sc.outMax); }
+         // a packet the transport refused must keep HasBytesToOutput() true until it has been written
+         if (!caseBad && io.lastHeld) Fail(std::string("held_packet_not_announced_by_HasBytesToOutput|") + sc.Kind(), vh::fmt("HasBytesToOutput() is false although the last Write() returned 0 and the packet was never written (Message %zu of sender %d)", i, s));
       }
    }
    gw()->SetDataIO(DataIORef());
@@ -601,6 +602,17 @@ static void Regress()
          curScen = sc.Describe();
          WitnessIdentity("max_incoming_size_drops_rest_of_packet", sc);
          vh::distinct(41 + v);
+      }
+   }
+   {  // repaired defect: HasBytesToOutput() was false while a packet refused by Write() was still held, so an event loop never sent it.
+      // One small Message, the first Write() returns 0; DoOutput() is called only while HasBytesToOutput()
+      for (int v = 0; v < 2; v++) {
+         Scen sc; sc.mini = (v == 1); sc.mtu = sc.ctorMtu = 200; sc.ns = 1; sc.holdDen = 1; sc.addr[0] = IPAddressAndPort(IPAddress((uint64)0x7f000001, 0), 4000); caseBad = false;
+         vh::begin_case(50 + v); curScript = "regress: held packet announced by HasBytesToOutput()"; curScen = v ? "mini, MTU 200, one 60-byte Message, first Write held" : "tunnel, MTU 200, one 60-byte Message, first Write held";
+         std::vector<MessageRef> m; m.push_back(MakeMsg(1, 60, 0, 1));
+         SendAll(sc, 0, m);
+         if (!caseBad) { curScen = sc.Describe(); WitnessIdentity("held_packet_not_announced_by_HasBytesToOutput", sc); }
+         vh::distinct(51 + v);
       }
    }
    {  // "If bytesWritten is set to zero, we just hold this buffer until our next call" (mini tunnel, zlib): a held packet whose deflation did not pay,
